@@ -9,6 +9,7 @@ import (
 	"fmt"
 	"io/ioutil"
 	"os"
+	"runtime"
 	"runtime/debug"
 	"strconv"
 	"strings"
@@ -24,6 +25,25 @@ func vGuardTest(t *testing.T) {
 	if r := recover(); r != nil {
 		t.Fatalf("VERIF-INFRA: panic on the harness goroutine: %v\n%s", r, debug.Stack())
 	}
+}
+
+// vWatchdog bounds one scenario: if the harness itself hangs (a deadlock in
+// harness code cannot be broken from inside), the shard ends at once as an
+// infrastructure failure with a goroutine dump instead of running into the
+// driver's time-out.
+func vWatchdog(what string, d time.Duration) (cancel func()) {
+	done := make(chan struct{})
+	go func() {
+		select {
+		case <-done:
+		case <-time.After(d):
+			buf := make([]byte, 1<<20)
+			n := runtime.Stack(buf, true)
+			fmt.Fprintf(os.Stderr, "VERIF-INFRA: harness watchdog: %s still running after %s\n%s\n", what, d, buf[:n])
+			os.Exit(3)
+		}
+	}()
+	return func() { close(done) }
 }
 
 func vEnvInt(name string, def int) int {
@@ -151,7 +171,9 @@ func TestVerifC14E2E(t *testing.T) {
 		if err != nil {
 			t.Fatalf("VERIF-INFRA: %v", err)
 		}
+		stopWD := vWatchdog(fmt.Sprintf("C14 scenario seed=%d", seed), lim.totalCap+90*time.Second)
 		res := rn.run(lim)
+		stopWD()
 		t.Logf("scenario %d seed=%d: %v labels=%v", i, seed, res.Summary, res.Labels)
 		vReport(t, rn, res, "C14")
 		vRecord(sc, res, "C14")
@@ -172,7 +194,9 @@ func TestVerifC15Liveness(t *testing.T) {
 	if err != nil {
 		t.Fatalf("VERIF-INFRA: %v", err)
 	}
+	stopCal := vWatchdog("fault-free calibration run", 300*time.Second)
 	cres := rn.run(vLimits{deadline: 120 * time.Second, stuckAfter: 30 * time.Second})
+	stopCal()
 	if !cres.Drained {
 		if len(cres.Violations) > 0 {
 			// a fault-free run that gets stuck is a liveness failure too
@@ -194,8 +218,19 @@ func TestVerifC15Liveness(t *testing.T) {
 		if x := 5 * time.Duration(cres.WallMs) * time.Millisecond; x > st {
 			st = x
 		}
-		if d < 6*st {
-			d = 6 * st
+		if st > 30*time.Second {
+			st = 30 * time.Second
+		}
+		if d < 4*st {
+			d = 4 * st
+		}
+		// keep a shard inside its time-out whatever happens (reaching D is
+		// "inconclusive", never a verdict)
+		if dcap := time.Duration(vEnvInt("VERIF_DCAP_S", 120)) * time.Second; d > dcap {
+			d = dcap
+		}
+		if sc.SlowQuota {
+			d += 70 * time.Second
 		}
 		return vLimits{deadline: d, stuckAfter: st}
 	}
@@ -231,7 +266,10 @@ func TestVerifC15Liveness(t *testing.T) {
 		if err != nil {
 			t.Fatalf("VERIF-INFRA: %v", err)
 		}
-		res := rn.run(limFor(sc))
+		lim := limFor(sc)
+		stopWD := vWatchdog(fmt.Sprintf("C15 scenario seed=%d", seed), lim.deadline+lim.stuckAfter+150*time.Second)
+		res := rn.run(lim)
+		stopWD()
 		t.Logf("scenario %d seed=%d: %v labels=%v", i, seed, res.Summary, res.Labels)
 		vReport(t, rn, res, "C15")
 		vRecord(sc, res, "C15")
